@@ -41,10 +41,17 @@ func rulesC16(c *Ctx, r *Report) {
 // breakpoint; (COORD) coordinates are only ever compared with coordinates, never with a constant: no
 // position value is special.
 func rulesSweep(c *Ctx, r *Report) {
-	f := c.fn("regions", "NewIndex")
+	keysFn := c.role("regions.keys")
+	f := newIndexStage(c, func(g *ssa.Function) bool {
+		return keysFn != nil && len(staticCallsTo(g, keysFn)) > 0
+	})
 	where := "regions.NewIndex"
+	if f != nil {
+		where = fname(f)
+		r.analysed(where)
+	}
 	keys := c.role("regions.keys")
-	if f == nil || len(f.Params) != 2 || keys == nil {
+	if f == nil || keys == nil {
 		r.undecided("SNAPSHOT", where, "anchor", "", "NewIndex(starts, ends) or the key-list helper not found")
 		return
 	}
@@ -102,6 +109,7 @@ func rulesSweep(c *Ctx, r *Report) {
 		}
 		return t
 	}
+	stages := c.stageFuncs(c.fn("regions", "NewIndex"))
 	for changed := true; changed; {
 		changed = false
 		mark := func(v ssa.Value) {
@@ -110,75 +118,82 @@ func rulesSweep(c *Ctx, r *Report) {
 				changed = true
 			}
 		}
-		instrs(f, func(in ssa.Instruction) {
-			switch x := in.(type) {
-			case *ssa.UnOp:
-				if x.Op != token.MUL {
-					return
-				}
-				switch a := x.X.(type) {
-				case *ssa.IndexAddr:
-					if a.X == ssa.Value(f.Params[0]) || a.X == ssa.Value(f.Params[1]) {
+		for _, sf := range stages {
+			sf := sf
+			instrs(sf, func(in ssa.Instruction) {
+				switch x := in.(type) {
+				case *ssa.UnOp:
+					if x.Op != token.MUL {
+						return
+					}
+					switch a := x.X.(type) {
+					case *ssa.IndexAddr:
+						if par, ok := a.X.(*ssa.Parameter); ok {
+							if sl, ok := par.Type().Underlying().(*types.Slice); ok && types.Identical(sl.Elem(), types.Typ[types.Int]) {
+								mark(x) // an element of starts or ends (in NewIndex or in the stage that receives them)
+							}
+						}
+					case *ssa.FieldAddr:
+						if coordField[fld{structOf(a.X.Type()), a.Field}] {
+							mark(x)
+						}
+					case *ssa.Alloc:
+						for _, ref := range *a.Referrers() {
+							if st, ok := ref.(*ssa.Store); ok && st.Addr == ssa.Value(a) && coord[st.Val] {
+								mark(x)
+							}
+						}
+					}
+				case *ssa.Field:
+					if coordField[fld{x.X.Type(), x.Field}] {
 						mark(x)
 					}
-				case *ssa.FieldAddr:
-					if coordField[fld{structOf(a.X.Type()), a.Field}] {
-						mark(x)
-					}
-				case *ssa.Alloc:
-					for _, ref := range *a.Referrers() {
-						if st, ok := ref.(*ssa.Store); ok && st.Addr == ssa.Value(a) && coord[st.Val] {
+				case *ssa.Phi:
+					for _, e := range x.Edges {
+						if coord[e] {
 							mark(x)
 						}
 					}
-				}
-			case *ssa.Field:
-				if coordField[fld{x.X.Type(), x.Field}] {
-					mark(x)
-				}
-			case *ssa.Phi:
-				for _, e := range x.Edges {
-					if coord[e] {
-						mark(x)
+				case *ssa.Store:
+					if fa, ok := x.Addr.(*ssa.FieldAddr); ok && coord[x.Val] {
+						k := fld{structOf(fa.X.Type()), fa.Field}
+						if !coordField[k] {
+							coordField[k] = true
+							changed = true
+						}
 					}
 				}
-			case *ssa.Store:
-				if fa, ok := x.Addr.(*ssa.FieldAddr); ok && coord[x.Val] {
-					k := fld{structOf(fa.X.Type()), fa.Field}
-					if !coordField[k] {
-						coordField[k] = true
-						changed = true
-					}
-				}
-			}
-		})
+			})
+		}
 	}
 	nCmp := 0
 	var bad []string
-	s := newSymb(f)
-	instrs(f, func(in ssa.Instruction) {
-		bo, ok := in.(*ssa.BinOp)
-		if !ok {
-			return
-		}
-		switch bo.Op {
-		case token.EQL, token.NEQ, token.LSS, token.LEQ, token.GTR, token.GEQ:
-		default:
-			if coord[bo.X] || coord[bo.Y] {
-				bad = append(bad, "arithmetic "+s.expr(bo).String()+" at "+c.pos(bo.Pos()))
+	for _, sf := range stages {
+		s := newSymb(sf)
+		instrs(sf, func(in ssa.Instruction) {
+			bo, ok := in.(*ssa.BinOp)
+			if !ok {
+				return
 			}
-			return
-		}
-		if !coord[bo.X] && !coord[bo.Y] {
-			return
-		}
-		nCmp++
-		_, cx := bo.X.(*ssa.Const)
-		_, cy := bo.Y.(*ssa.Const)
-		if cx || cy {
-			bad = append(bad, s.expr(bo).String()+" at "+c.pos(bo.Pos()))
-		}
-	})
+			switch bo.Op {
+			case token.EQL, token.NEQ, token.LSS, token.LEQ, token.GTR, token.GEQ:
+			default:
+				if coord[bo.X] || coord[bo.Y] {
+					bad = append(bad, "arithmetic "+s.expr(bo).String()+" at "+c.pos(bo.Pos()))
+				}
+				return
+			}
+			if !coord[bo.X] && !coord[bo.Y] {
+				return
+			}
+			nCmp++
+			_, cx := bo.X.(*ssa.Const)
+			_, cy := bo.Y.(*ssa.Const)
+			if cx || cy {
+				bad = append(bad, s.expr(bo).String()+" at "+c.pos(bo.Pos()))
+			}
+		})
+	}
 	r.check(len(bad) == 0, "COORD", where, "coordinates compared with coordinates only", c.pos(f.Pos()),
 		fmt.Sprintf("all %d comparisons on coordinate values (elements of starts/ends and what is derived from them through %d struct fields) are between two coordinates; no arithmetic on coordinates: no position value is treated specially", nCmp, len(coordField)),
 		"a coordinate is compared with a constant or used in arithmetic ("+strings.Join(bad, "; ")+"): that position value behaves differently from all others (e.g. a sentinel that is also a legal coordinate)")
@@ -231,8 +246,11 @@ func rulesLenMismatchPanics(c *Ctx, r *Report) {
 
 // rulesStartEnd: every append of an event is dominated by the fact starts[i] < ends[i].
 func rulesStartEnd(c *Ctx, r *Report) {
-	f := c.fn("regions", "NewIndex")
+	f := newIndexStage(c, func(g *ssa.Function) bool { return hasInstr(g, isEventAppend) })
 	where := "regions.NewIndex"
+	if f != nil {
+		where = fname(f)
+	}
 	if f == nil || len(f.Params) != 2 {
 		r.undecided("START<END", where, "anchor", "", "NewIndex(starts, ends) not found")
 		return
@@ -318,6 +336,10 @@ func rulesRoIndex(c *Ctx, r *Report) {
 	}
 	var bad []string
 	n := 0
+	allowed := map[*ssa.Function]bool{}
+	for _, g := range c.stageFuncs(c.fn("regions", "NewIndex")) {
+		allowed[g] = true
+	}
 	for _, f := range c.moduleFuncs() {
 		if funcPkgPath(f) != modPath+"/regions" {
 			continue
@@ -344,7 +366,7 @@ func rulesRoIndex(c *Ctx, r *Report) {
 				return
 			}
 			n++
-			if root.Name() != "NewIndex" {
+			if !allowed[root] {
 				bad = append(bad, fname(f)+" at "+c.pos(st.Pos()))
 			}
 		})
@@ -354,7 +376,16 @@ func rulesRoIndex(c *Ctx, r *Report) {
 
 // rulesSortCmp: comparators decide by comparisons only.
 func rulesSortCmp(c *Ctx, r *Report) {
-	f := c.fn("regions", "NewIndex")
+	f := newIndexStage(c, func(g *ssa.Function) bool {
+		return hasInstr(g, func(in ssa.Instruction) bool {
+			cl, ok := in.(*ssa.Call)
+			if !ok || cl.Call.StaticCallee() == nil {
+				return false
+			}
+			qn := qname(cl.Call.StaticCallee())
+			return strings.HasPrefix(qn, "sort.") || strings.HasPrefix(qn, "slices.Sort")
+		})
+	})
 	if f == nil {
 		return
 	}
@@ -660,4 +691,45 @@ func rulesMakeThenAppend(c *Ctx, r *Report, rels ...string) {
 		})
 	}
 	r.holds("MAKE-APPEND", strings.Join(rels, ","), "scan", "", fmt.Sprintf("%d slices made with a non-zero length examined: each is indexed, copied into, re-sliced or handed on — none is only appended to", n))
+}
+
+// newIndexStage: the function — NewIndex itself or a stage split off from it — that satisfies pred. A stage
+// that takes (starts, ends) must receive NewIndex's own two parameters in order.
+func newIndexStage(c *Ctx, pred func(*ssa.Function) bool) *ssa.Function {
+	root := c.fn("regions", "NewIndex")
+	if root == nil {
+		return nil
+	}
+	for _, f := range c.stageFuncs(root) {
+		if pred(f) {
+			return f
+		}
+	}
+	return root
+}
+
+func hasInstr(f *ssa.Function, pred func(ssa.Instruction) bool) bool {
+	found := false
+	instrs(f, func(in ssa.Instruction) {
+		if pred(in) {
+			found = true
+		}
+	})
+	return found
+}
+
+func isEventAppend(in ssa.Instruction) bool {
+	cl, ok := in.(*ssa.Call)
+	if !ok {
+		return false
+	}
+	if b, ok := cl.Call.Value.(*ssa.Builtin); !ok || b.Name() != "append" {
+		return false
+	}
+	sl, ok := cl.Type().Underlying().(*types.Slice)
+	if !ok {
+		return false
+	}
+	nm, ok := sl.Elem().(*types.Named)
+	return ok && nm.Obj().Name() == "event"
 }
